@@ -17,6 +17,26 @@ use std::collections::{BTreeMap, BTreeSet};
 
 const CAP: usize = 64;
 
+/// Consume an iterator (at most CAP items) and keep polling it a few times
+/// after it is exhausted: a non-fused iterator must stay memory-safe.
+fn poll<I: Iterator>(mut it: I) -> usize {
+    let mut n = 0;
+    while n < CAP {
+        if it.next().is_none() {
+            break;
+        }
+        n += 1;
+    }
+    if n < CAP {
+        for _ in 0..3 {
+            if it.next().is_some() {
+                n += 1;
+            }
+        }
+    }
+    n
+}
+
 /// Vertex argument: in range, last, order, order + 1, far; for sparse vertex
 /// sets also ids in the gaps.
 fn arg(r: &mut Rng, m: &Model) -> usize {
@@ -66,16 +86,16 @@ fn traverse<D: Order + OutNeighbors + Vertices>(d: &D, t: usize, s: &[usize], tg
     let it = || s.iter().copied();
     let _ = catch(|| match t {
         0 => {
-            let _ = Bfs::new(d, it()).take(CAP).count();
+            let _ = poll(Bfs::new(d, it()));
         }
         1 => {
-            let _ = BfsDist::new(d, it()).take(CAP).count();
+            let _ = poll(BfsDist::new(d, it()));
         }
         2 => {
             let _ = BfsDist::new(d, it()).distances();
         }
         3 => {
-            let _ = BfsPred::new(d, it()).take(CAP).count();
+            let _ = poll(BfsPred::new(d, it()));
         }
         4 => {
             let _ = BfsPred::new(d, it()).predecessors();
@@ -87,13 +107,13 @@ fn traverse<D: Order + OutNeighbors + Vertices>(d: &D, t: usize, s: &[usize], tg
             let _ = BfsPred::new(d, it()).cycles();
         }
         7 => {
-            let _ = Dfs::new(d, it()).take(CAP).count();
+            let _ = poll(Dfs::new(d, it()));
         }
         8 => {
-            let _ = DfsDist::new(d, it()).take(CAP).count();
+            let _ = poll(DfsDist::new(d, it()));
         }
         9 => {
-            let _ = DfsPred::new(d, it()).take(CAP).count();
+            let _ = poll(DfsPred::new(d, it()));
         }
         10 => {
             let _ = DfsPred::new(d, it()).predecessors();
@@ -153,10 +173,10 @@ where
 {
     match q {
         0 => {
-            let _ = catch(|| d.out_neighbors(a).take(CAP).count());
+            let _ = catch(|| poll(d.out_neighbors(a)));
         }
         1 => {
-            let _ = catch(|| d.in_neighbors(a).take(CAP).count());
+            let _ = catch(|| poll(d.in_neighbors(a)));
         }
         2 => {
             let _ = catch(|| d.indegree(a));
@@ -177,16 +197,19 @@ where
             let _ = catch(|| d.has_walk(walk));
         }
         6 => {
-            let _ = catch(|| d.degree_sequence().count());
-            let _ = catch(|| d.indegree_sequence().count());
-            let _ = catch(|| d.outdegree_sequence().count());
-            let _ = catch(|| d.semidegree_sequence().count());
+            let _ = catch(|| poll(d.degree_sequence()));
+            let _ = catch(|| poll(d.indegree_sequence()));
+            let _ = catch(|| poll(d.outdegree_sequence()));
+            let _ = catch(|| poll(d.semidegree_sequence()));
             let _ = catch(|| (d.max_degree(), d.min_degree(), d.max_indegree(), d.min_indegree(), d.max_outdegree(), d.min_outdegree()));
         }
         7 => {
-            let _ = catch(|| d.sinks().count());
-            let _ = catch(|| d.sources().count());
-            let _ = catch(|| (d.order(), d.size(), d.vertices().count(), d.arcs().count()));
+            let _ = catch(|| poll(d.sinks()));
+            let _ = catch(|| poll(d.sources()));
+            let _ = catch(|| (d.order(), d.size(), poll(d.vertices()), poll(d.arcs())));
+            // a non-fused adapter polls the shorter side again after None
+            let _ = catch(|| d.arcs().zip(d.vertices()).count() + d.vertices().zip(d.arcs()).count());
+            let _ = catch(|| d.arcs().chain(d.arcs()).count());
         }
         8 => {
             let _ = catch(|| d.is_complete());
@@ -377,16 +400,16 @@ fn probe(id: usize, r: &mut Rng, max: usize) -> String {
             let it = || s.iter().copied();
             let _ = catch(|| match id {
                 0 => {
-                    let _ = Dijkstra::new(&d, it()).take(CAP).count();
+                    let _ = poll(Dijkstra::new(&d, it()));
                 }
                 1 => {
-                    let _ = DijkstraDist::new(&d, it()).take(CAP).count();
+                    let _ = poll(DijkstraDist::new(&d, it()));
                 }
                 2 => {
                     let _ = DijkstraDist::new(&d, it()).distances();
                 }
                 3 => {
-                    let _ = DijkstraPred::new(&d, it()).take(CAP).count();
+                    let _ = poll(DijkstraPred::new(&d, it()));
                 }
                 4 => {
                     let _ = DijkstraPred::new(&d, it()).predecessors();
@@ -588,11 +611,41 @@ fn probe(id: usize, r: &mut Rng, max: usize) -> String {
             let rows: Vec<BTreeSet<usize>> = (0..n).map(|_| (0..r.below(3)).map(|_| r.below(n + 2)).collect()).collect();
             let arcs: Vec<(usize, usize)> = (0..r.below(4)).map(|_| (r.below(4), r.below(4))).collect();
             let wrows: Vec<BTreeMap<usize, usize>> = rows.iter().map(|s| s.iter().map(|&v| (v, 1)).collect()).collect();
-            let _ = catch(|| AdjacencyList::from(rows.clone()).order());
-            let _ = catch(|| AdjacencyMap::from(rows.clone()).order());
-            let _ = catch(|| AdjacencyMatrix::from(arcs.clone()).order());
-            let _ = catch(|| EdgeList::from(arcs.clone()).order());
-            let _ = catch(|| AdjacencyListWeighted::<usize>::from(wrows.clone()).order());
+            // whatever a constructor accepts must be safe to use afterwards
+            let t = r.below(TRAV.len());
+            let s0 = [0usize, n.saturating_sub(1)];
+            if let Ok(d) = catch(|| AdjacencyList::from(rows.clone())) {
+                traverse(&d, t, &s0, 0);
+                query(&d, r.below(QUERY.len()), 0, n, &[0, 1]);
+                let _ = catch(|| (d.complement().order(), d.converse().order(), d.union(&d).order()));
+            }
+            if let Ok(d) = catch(|| AdjacencyMap::from(rows.clone())) {
+                traverse(&d, t, &s0, 0);
+                query(&d, r.below(QUERY.len()), 0, n, &[0, 1]);
+                let _ = catch(|| (d.complement().order(), d.converse().order(), d.union(&d).order(), Johnson75::new(&d).circuits().len()));
+            }
+            if let Ok(d) = catch(|| AdjacencyMatrix::from(arcs.clone())) {
+                traverse(&d, t, &s0, 0);
+                query(&d, r.below(QUERY.len()), 0, n, &[0, 1]);
+            }
+            if let Ok(d) = catch(|| EdgeList::from(arcs.clone())) {
+                traverse(&d, t, &s0, 0);
+                query(&d, r.below(QUERY.len()), 0, n, &[0, 1]);
+                let _ = catch(|| AdjacencyList::from(d.clone()).order());
+            }
+            if let Ok(d) = catch(|| AdjacencyListWeighted::<usize>::from(wrows.clone())) {
+                traverse(&d, t, &s0, 0);
+                let _ = catch(|| DijkstraDist::new(&d, s0.iter().copied()).distances());
+                let _ = catch(|| DijkstraPred::new(&d, s0.iter().copied()).predecessors());
+                let _ = catch(|| d.converse().order());
+            }
+            let irows: Vec<BTreeMap<usize, isize>> = rows.iter().map(|s| s.iter().map(|&v| (v, -1)).collect()).collect();
+            if let Ok(d) = catch(|| AdjacencyListWeighted::<isize>::from(irows.clone())) {
+                for s in 0..n {
+                    let _ = catch(|| BellmanFordMoore::new(&d, s).distances().map(<[isize]>::to_vec));
+                }
+                let _ = catch(|| FloydWarshall::new(&d).distances().center());
+            }
             extra = format!("rows={rows:?} arcs={arcs:?}");
         }
         22 => {
@@ -600,8 +653,8 @@ fn probe(id: usize, r: &mut Rng, max: usize) -> String {
             let d = build_w_usize(&mw);
             let (a, b) = (arg(r, &mw), arg(r, &mw));
             let _ = catch(|| d.arc_weight(a, b).copied());
-            let _ = catch(|| d.out_neighbors_weighted(a).count());
-            let _ = catch(|| d.arcs_weighted().count());
+            let _ = catch(|| poll(d.out_neighbors_weighted(a)));
+            let _ = catch(|| poll(d.arcs_weighted()));
             let _ = catch(|| d.converse().order());
             extra = format!("args=({a},{b}) D: {}", mw.describe());
         }
